@@ -28,8 +28,12 @@ TRACE = ("FaultTrace.tla", "FaultTrace.cfg")
 
 # cheapest first; the quick tier runs all of them when the measured budget
 # allows, else a prefix of this list (and says so in the stats)
-SCRIPTS = ["params", "refuse", "ue14", "vnadata2", "trl", "calstore", "te10", "corr", "lm", "lmw", "e12", "ue10",
-           "t8", "t8p3", "load", "bulk", "u16", "vnadata", "yaml", "t16"]
+SCRIPTS = ["params", "refuse", "ue14", "vnadata2", "trl", "calstore", "te10",
+           "corr", "lm", "lmw", "e12", "ue10", "t8", "t8p3", "load", "bulk",
+           "u16", "vnadata", "yaml", "t16"] + [
+               "solt-%s-%s" % (t, f)
+               for t in ("t8", "u8", "te10", "ue10", "ue14", "e12")
+               for f in ("m", "ab")]
 QUICK_BUDGET_S = 120.0
 
 RESTART_RC = 95         # driver asks for a fresh process after a leaky episode
@@ -168,12 +172,13 @@ def issues_from_crashes(ctx, crashes):
     return issues
 
 
-def _suspicious(lines):
+def _predict(lines):
     """Cheap screening of one episode with the FaultX rules re-stated in
-    Python.  It decides nothing: it only routes the episode either into the
-    bulk shards or into a TLC run of its own, so that a tree with hundreds of
-    failing fault points does not make the sharded validation re-read whole
-    shards once per rejection.  TLC validates every episode either way."""
+    Python, in the order of FaultX!StepChecks / EndChecks: None if the
+    episode looks acceptable, else (event name, field).  It decides nothing:
+    it only routes the episode either into the bulk shards or into a TLC run
+    of its own, so that a tree with hundreds of failing fault points does not
+    make the sharded validation re-read whole shards once per rejection."""
     pc, n, faulted, pending = 1, None, False, False
     try:
         for ln in lines:
@@ -181,58 +186,87 @@ def _suspicious(lines):
             if ev["e"] == "Reset":
                 n = ev["n"]
             elif ev["e"] == "Step":
-                if ev["i"] != pc or (ev["fault"] and faulted):
-                    return True
+                nm = ev["name"]
+                if ev["i"] != pc:
+                    return (nm, "i")
                 if ev["fault"] and not ev["ok"]:
-                    if ev["digest"] == "ERR":
-                        return True
+                    if faulted:
+                        return (nm, "fault")
                     if ev["err"] != "ENOMEM" and not (
                             ev["refok"] == 0 and ev["err"] == ev["referr"]
                             and ev["digest"] == ev["refdigest"]):
-                        return True
+                        return (nm, "err")
+                    if ev["digest"] == "ERR":
+                        return (nm, "usable")
                     faulted = pending = True
                 else:
-                    if (ev["ok"] != ev["refok"] or ev["digest"] == "ERR" or
-                            ev["digest"] != ev["refdigest"] or
-                            (not ev["ok"] and ev["err"] != ev["referr"])):
-                        return True
+                    if ev["fault"] and faulted:
+                        return (nm, "fault")
+                    if ev["ok"] != ev["refok"]:
+                        return (nm, "ok")
+                    if not ev["ok"] and ev["err"] != ev["referr"]:
+                        return (nm, "err")
+                    if ev["digest"] == "ERR":
+                        return (nm, "usable")
+                    if ev["digest"] != ev["refdigest"]:
+                        return (nm, "digest")
                     faulted = faulted or bool(ev["fault"])
                     pending = False
                     pc += 1
             elif ev["e"] == "End":
-                return pending or pc != n + 1 or ev["live"] != 0
+                if pending:
+                    return ("End", "retry")
+                if pc != n + 1:
+                    return ("End", "steps")
+                if ev["live"] != 0:
+                    return ("End", "live")
+                return None
     except (ValueError, KeyError, TypeError):
-        return True
-    return True                      # no End
+        return ("?", "malformed")
+    return ("?", "no End")
 
 
-MAX_SINGLE = 600        # episodes validated in a TLC run of their own
+REPRESENTATIVES = 3     # episodes per screened class validated on their own
+MAX_SINGLE = 600        # cap on single-episode TLC runs per check run
+
+
+def _script_of(lines):
+    m = common.CASE_RE.search(lines[0]) if lines else None
+    return m.group(1).split(":")[1] if m else "?"
 
 
 def _validate(ctx, trace_path):
-    """validate_sharded-compatible result for a multi-episode trace."""
+    """validate_sharded-compatible result for a multi-episode trace.
+
+    Episodes the screening expects to pass go to the bulk shards.  The others
+    are grouped by (script, event, field, faulted step); REPRESENTATIVES of
+    each group get a TLC run of their own.  If TLC rejects all of them at the
+    predicted event and field, the rest of the group is attributed to the same
+    signature without a TLC run (counted in `attributed`; they can add no new
+    signature); if TLC disagrees with the screening anywhere in a group, the
+    whole group is validated one by one."""
     eps = vlib.split_episodes(trace_path)
     bulk = os.path.join(ctx.work, "faultx-bulk.ndjson")
-    single = []
+    groups = {}
     with open(bulk, "w") as fp:
         for start, lines in eps:
-            if _suspicious(lines):
-                single.append((start, lines))
-            else:
+            pr = _predict(lines)
+            if pr is None:
                 fp.writelines(lines)
+            else:
+                key = (_script_of(lines), pr[0], pr[1], _faulted_step(lines))
+                groups.setdefault(key, []).append((start, lines))
     res = vlib.validate_sharded(TRACE[0], TRACE[1], bulk, ctx.work,
                                 shards=vlib.NCPU, max_failures=40)
-    res["screened_out"] = len(single)
-    if len(single) > MAX_SINGLE:
-        res["errors"].append(
-            "%d episodes look rejected; only the first %d were validated "
-            "one by one, the others were not validated in this run"
-            % (len(single), MAX_SINGLE))
-        single = single[:MAX_SINGLE]
+    res["screened_out"] = sum(len(v) for v in groups.values())
+    res["attributed"] = 0
+    counter = [0]
 
     def one(item):
-        j, (start, lines) = item
-        p = os.path.join(ctx.work, "faultx-single-%d.ndjson" % j)
+        key, (start, lines) = item
+        counter[0] += 1
+        p = os.path.join(ctx.work, "faultx-single-%d-%d.ndjson" % (
+            start, counter[0]))
         with open(p, "w") as fp:
             fp.writelines(lines)
         r = vlib.tlc_validate_trace(TRACE[0], TRACE[1], p, ctx.work)
@@ -253,19 +287,49 @@ def _validate(ctx, trace_path):
                         "expected": r1.get("expected"),
                         "out": r1["out"][-1500:]})
         os.unlink(p)
-        return gen, len(lines), out
+        return key, gen, len(lines), out
 
-    with concurrent.futures.ThreadPoolExecutor(vlib.NCPU) as ex:
-        for gen, nev, out in ex.map(one, enumerate(single)):
-            res["generated"] += gen
-            res["events"] += nev
-            res["episodes"] += 1
-            if out is None:
-                continue
-            if out[0] == "error":
-                res["errors"].append(out[1])
-            else:
-                res["failures"].append(out[1])
+    def run_batch(items):
+        agree = {}
+        with concurrent.futures.ThreadPoolExecutor(vlib.NCPU) as ex:
+            for key, gen, nev, out in ex.map(one, items):
+                res["generated"] += gen
+                res["events"] += nev
+                res["episodes"] += 1
+                ok = False
+                if out is not None and out[0] == "error":
+                    res["errors"].append(out[1])
+                elif out is not None:
+                    res["failures"].append(out[1])
+                    idx, evname, field = common.parse_mismatch(
+                        out[1]["mismatch"])
+                    ok = (evname, field) == (key[1], key[2])
+                agree[key] = agree.get(key, True) and ok
+        return agree
+
+    first, rest = [], {}
+    for key, members in groups.items():
+        n = len(members)
+        picks = sorted({0, n // 2, n - 1})[:REPRESENTATIVES]
+        first += [(key, members[i]) for i in picks]
+        rest[key] = [m for i, m in enumerate(members) if i not in picks]
+    budget = MAX_SINGLE
+    agree = run_batch(first[:budget])
+    budget -= min(budget, len(first))
+    second = []
+    for key, members in rest.items():
+        if agree.get(key, False):
+            res["attributed"] += len(members)
+        else:
+            second += [(key, m) for m in members]
+    if len(first) > MAX_SINGLE or len(second) > budget:
+        res["errors"].append(
+            "%d episodes that look rejected were not validated in this run "
+            "(cap of %d single-episode TLC runs)" %
+            (max(0, len(first) - MAX_SINGLE) + max(0, len(second) - budget),
+             MAX_SINGLE))
+    if second and budget > 0:
+        run_batch(second[:budget])
     return res
 
 
@@ -337,7 +401,8 @@ def run_fault(ctx, exe, tier, seed):
             else:
                 break
     res = _validate(ctx, tr)
-    stats["episodes_validated_singly"] = res["screened_out"]
+    stats["episodes_screened_as_rejected"] = res["screened_out"]
+    stats["episodes_attributed_without_tlc"] = res["attributed"]
     ctx.machinery_errors += res["errors"]
     issues += issues_from_validation(ctx, res)
     stats["events"] = res["events"]
